@@ -7,6 +7,7 @@ EXTENDS Integers, Sequences
 STARB == 42
 QMARK == 63
 
+\* the definition, as the property words it (backtracking over every '*': exponential on patterns with many '*')
 RECURSIVE MatchAt(_, _, _, _)
 MatchAt(p, i, k, j) ==
   IF i > Len(p) THEN j > Len(k)
@@ -15,5 +16,19 @@ MatchAt(p, i, k, j) ==
   ELSE IF p[i] = QMARK THEN MatchAt(p, i + 1, k, j + 1)
   ELSE p[i] = k[j] /\ MatchAt(p, i + 1, k, j + 1)
 
-Match(p, k) == MatchAt(p, 1, k, 1)
+MatchRec(p, k) == MatchAt(p, 1, k, 1)
+
+\* the same relation computed pattern character by pattern character over the SET of key positions reached so far
+\* (polynomial; MC_C17 checks Match = MatchRec on the whole bounded universe).  The trace specifications use this one, so
+\* that a pattern such as *a*a*a...*b against a long key costs the specification nothing.
+RECURSIVE Reach(_, _, _, _)
+Reach(p, i, k, S) ==
+  IF i > Len(p) \/ S = {} THEN S
+  ELSE LET c == p[i]
+           T == IF c = STARB THEN {j \in 1..(Len(k) + 1) : \E s \in S : s <= j}
+                ELSE IF c = QMARK THEN {s + 1 : s \in {t \in S : t <= Len(k)}}
+                ELSE {s + 1 : s \in {t \in S : t <= Len(k) /\ k[t] = c}}
+       IN Reach(p, i + 1, k, T)
+
+Match(p, k) == (Len(k) + 1) \in Reach(p, 1, k, {1})
 =============================================================================
